@@ -229,8 +229,15 @@ func modelTerms(g *Group) (names []string, terms []*Term) {
 	for _, in := range g.Obls[0].Inputs {
 		collectModelTerms(g.Obls[0].Entry, in.Name, in.T, in.V, 2, add)
 	}
+	if extraModelTerms != nil {
+		extraModelTerms(g.Obls[0].Entry, add)
+	}
 	return
 }
+
+// extraModelTerms: set by the driver; adds the identities of io.EOF / io.ErrUnexpectedEOF so that a replay can tell
+// which terminal error a model stream ends with.
+var extraModelTerms func(entry *State, add func(string, *Term))
 
 const modelBytes = 64
 
@@ -355,7 +362,7 @@ func discharge(groups []*Group, workDir string, timeout int, confirm bool, worke
 				if strings.Contains(j.query, "(check-sat)") {
 					var extra strings.Builder
 					for _, n := range j.names {
-						if strings.HasSuffix(n, ".len") || strings.HasSuffix(n, ".slen") || strings.HasSuffix(n, ".cap") {
+						if strings.HasSuffix(n, ".len") || strings.HasSuffix(n, ".slen") || strings.HasSuffix(n, ".cap") || strings.HasSuffix(n, ".rd.pos") {
 							extra.WriteString("(assert (bvule " + j.terms[n] + " #x0000000000001000))\n")
 						}
 					}
